@@ -288,6 +288,11 @@ func (g *rig) apply(o op) opResult {
 	switch o.Fault.Kind {
 	case "snap-error", "snap-panic":
 		g.failAt, g.failKind = int(o.Fault.At), o.Fault.Kind
+	case "snap-error-ctx", "snap-panic-ctx":
+		// the same host failure while the entry point runs under a caller's context, which the caller cancels
+		// once the entry point has returned: a context left behind anywhere would poison what follows
+		g.failAt, g.failKind = int(o.Fault.At), strings.TrimSuffix(o.Fault.Kind, "-ctx")
+		ctx = el.NewStepCtx()
 	case "budget":
 		budget = o.Fault.At
 	case "cancel":
@@ -357,6 +362,9 @@ func (g *rig) apply(o op) opResult {
 		}
 	default:
 		panic("harness: entry " + o.Entry)
+	}
+	if ctx != nil {
+		ctx.Cancel() // the caller is done with its context
 	}
 	res := opResult{out: el.Observe(v, g.env.Err.String()), steps: rt.Steps(), maxFrames: maxFrames, confirmed: g.confirmed}
 	_ = isLoad
@@ -588,7 +596,8 @@ func faultsOf(h history, o op, full bool) []fault {
 	fs := []fault{{Kind: "none"}}
 	nE := int64(len(o.Effects))
 	for j := int64(1); j <= nE; j++ {
-		fs = append(fs, fault{Kind: "snap-error", At: j}, fault{Kind: "snap-panic", At: j})
+		fs = append(fs, fault{Kind: "snap-error", At: j}, fault{Kind: "snap-panic", At: j},
+			fault{Kind: "snap-error-ctx", At: j}, fault{Kind: "snap-panic-ctx", At: j})
 	}
 	if full {
 		for n := int64(1); n <= N; n++ {
